@@ -118,6 +118,18 @@ def run(ctx):
                 if np.min(np.abs(Hh)) > 0.05:
                     X0 = qslst.qslst_restore_fft(qslst.apply_blur_fft(img, pn), pn, 0.0)
                     if np.max(np.abs(X0 - img)) > 1e-6 * (1 + np.max(np.abs(img))): viol('C17:restore:inverse', 'lambda = 0 does not invert an invertible blur', inp, float(np.max(np.abs(X0 - img))))
+    # the contract under which the restoration theorems are stated for NumPy: fft2 / ifft2 are the transform pair of thm/DFT.v
+    # (forward weights cos - i sin, inverse scaled by 1 / (H W)); compared with the defining double sums
+    for (H, W) in [(1, 1), (1, 4), (2, 3), (3, 3), (4, 5)]:
+        xs = np.array([[rng.randint(-5, 5) + 1j * rng.randint(-5, 5) for _ in range(W)] for _ in range(H)])
+        wt = lambda u, v, sgn: np.array([[np.exp(sgn * 2j * np.pi * (u * i / H + v * j / W)) for j in range(W)] for i in range(H)])
+        d = np.array([[np.sum(xs * wt(u, v, -1)) for v in range(W)] for u in range(H)])
+        di = np.array([[np.sum(xs * wt(u, v, +1)) for v in range(W)] for u in range(H)]) / (H * W)
+        if np.max(np.abs(np.fft.fft2(xs) - d)) > 1e-11 * (1 + np.max(np.abs(d))) or np.max(np.abs(np.fft.ifft2(xs) - di)) > 1e-11 * (1 + np.max(np.abs(di))):
+            ctx.broken.append(f'numpy.fft.fft2 / ifft2 differ from the transform pair of thm/DFT.v on a {H}x{W} array (contract of the restoration theorems)')
+        if qslst.fft2 is not np.fft.fft2 or qslst.ifft2 is not np.fft.ifft2:
+            ctx.broken.append('quatica.qslst.fft2 / ifft2 are not numpy.fft.fft2 / ifft2')
+        ctx.count(('dft-contract', H, W), True)
     # PSF generators have unit sum; symmetric Gaussian / motion kernels through the same operator check
     for radius, sigma in ((1, 0.8), (2, 1.5), (3, 1.0)):
         g = qslst.build_psf_gaussian(radius, sigma)
@@ -144,5 +156,7 @@ def run(ctx):
                        'restoration vs the normal equations for lambda in {1e-3,1,10}, matrix path vs FFT path, linearity, channel independence, lambda=0 inverse. Distinct = (image, kernel) size pair.')
     return cm.finish(ctx, 'proof', '', ASSUME)
 
-ASSUME = ['FFT convolution theorem (pocketfft is an oracle; its outputs are compared with the exact convolution within 1e-9)',
+ASSUME = ['numpy.fft.fft2 / ifft2 compute the two-dimensional discrete Fourier transform and its inverse (dft / idft of thm/DFT.v) up to rounding: compared with the defining sums on small arrays on every run; '
+          'inversion, convolution and correlation theorems of that transform are proved (thm/DFT.v), so the restoration theorems need no further hypothesis about the FFT',
+          'the restoration theorems are over the exact complex numbers (pairs of reals): rounding of pocketfft and of the filter division is outside the model (the oracle compares within 1e-8)',
           'numpy.linalg.pinv inverts the symmetric positive definite matrix A^T A + lam I (checked through the normal-equation residual)']
